@@ -34,6 +34,8 @@ func extra(prop string, probes []xeng.Probe, meta *gen.Meta) error {
 	if prop != "C04" {
 		return nil
 	}
+	nser := serializationPanics(meta)
+	meta.Notes = append(meta.Notes, fmt.Sprintf("%d observations of a panic inside the response function (where generated code serializes) in front of the POST, SSE, multipart/mixed and websocket transports: recover hook once, a body that is well-formed for its content type and carries the error, the server keeps serving", nser))
 	type expect struct {
 		name     string
 		c        xeng.Case
